@@ -45,6 +45,8 @@ pub mod c16_crypto;
 pub mod sec_stubs;
 #[cfg(feature = "security")]
 pub mod c17_gate;
+#[cfg(feature = "security")]
+pub mod c18_access;
 pub mod c20_waitack;
 
 use std::fmt::Write as _;
@@ -179,6 +181,8 @@ pub fn registry() -> Vec<Property> {
   v.push(c16_crypto::property());
   #[cfg(feature = "security")]
   v.push(c17_gate::property());
+  #[cfg(feature = "security")]
+  v.push(c18_access::property());
   v.push(c20_waitack::property());
   v
 }
